@@ -1,0 +1,40 @@
+//go:build verif
+
+// Contracts for SIG(0) transaction signatures (sig0.go).  Comment-only file.
+
+package dns
+
+//@ func hashFromAlgorithm [C18 C10]
+//@   ensures ret2 == nil ==> ret0 != nil
+//@   pure
+
+// Verify parses the signed message by hand; on any buffer of at least header size it must return an error
+// rather than index out of range.
+//@ func (*SIG).Verify [C18]
+//@   requires rr != nil && len(buf) >= 12
+//@   stored at "byte((adc - 1) >> 8)," hi: uint16(adc - 1) / 256
+//@   stored at "byte(adc - 1)," lo: uint16(adc - 1) % 256
+//@   exit time: ret0 == nil ==> incept <= now && now <= expire
+//@   loop 1 invariant 12 <= offset && buflen == len(buf)
+//@   loop 2 invariant 12 <= offset && buflen == len(buf)
+
+// The length functions are functions of the message (no map iteration, clock or randomness), so the
+// uncompressed length Sign computes is the one PackBuffer computes again.
+//@ func msgLenWithCompressionMap [C18 C08]
+//@   requires dns != nil
+//@   modifies MS.mapLstringJstruct__@compression
+//@   deterministic
+
+// PackBuffer packs into the caller's buffer whenever it can hold the uncompressed message plus one octet,
+// whatever the compression setting (the message is packed uncompressed-sized first).
+//@ func (*Msg).packBufferWithCompressionMap [C18]
+//@   ensures own: ret1 == nil && len(buf) >= old(det("msgLenWithCompressionMap", dns, nil)) + 1 ==> ref(ret0) == ref(buf) && sliceoff(ret0) == sliceoff(buf)
+//@ func (*Msg).PackBuffer [C18]
+//@   ensures own: ret1 == nil && len(buf) >= old(det("msgLenWithCompressionMap", dns, nil)) + 1 ==> ref(ret0) == ref(buf) && sliceoff(ret0) == sliceoff(buf)
+
+// Sign: the buffer handed to PackBuffer is always the one the message ends up in, so "buffer size too small"
+// can only mean the signed message exceeds 65535 octets.
+//@ func (*SIG).Sign [C18]
+//@   requires rr != nil && m != nil
+//@   opt no-safety
+//@   assert at "if &buf[0] != &mbuf[0] {" inplace: ref(buf) == ref(mbuf) && sliceoff(buf) == sliceoff(mbuf)
